@@ -329,6 +329,15 @@ func doReplay(prop, file string, verbose bool) int {
 	defer os.RemoveAll(td)
 	j := job{Mode: "replay", Property: prop, File: abs, Out: filepath.Join(td, "replay.jsonl"), WatchdogS: 20}
 	res := runWorker(j, 1, 10*time.Minute)
+	if res.exit == 2 && (strings.Contains(res.stderr, "panic:") || strings.Contains(res.stderr, "fatal error:")) {
+		if b, err := os.ReadFile(abs); err == nil && strings.Contains(string(b), "/crash\"") {
+			if verbose {
+				fmt.Printf("replay %s: the worker process crashes again\n", file)
+				fmt.Printf("VIOLATION property=%s replay=%s\n", prop, file)
+			}
+			return 1
+		}
+	}
 	if res.exit == 3 {
 		if b, err := os.ReadFile(abs); err == nil && strings.Contains(string(b), "/hang\"") {
 			if verbose {
@@ -434,7 +443,7 @@ func explore(prop, tier string) int {
 	// aggregate
 	agg := summary{Probes: map[string]int{}, Faults: map[string]int{}, Modes: map[string]int{}, Labels: map[string]int{}, KnownSeen: map[string]int{}}
 	var failures []json.RawMessage
-	var hangs [][]byte
+	var hangs, crashes [][]byte
 	infra := []string{}
 	for w, r := range results {
 		gotSummary := false
@@ -477,6 +486,27 @@ func explore(prop, tier string) int {
 				infra = append(infra, fmt.Sprintf("worker %d: %s", w, r.raw[i]))
 			}
 		}
+		if r.exit == 2 && crashIsViolation[prop] && (strings.Contains(r.stderr, "panic:") || strings.Contains(r.stderr, "fatal error:")) {
+			// the worker process died: a panic escaped the system under test
+			if b, err := os.ReadFile(filepath.Join(td, fmt.Sprintf("w%d.current", w))); err == nil {
+				var f map[string]any
+				if json.Unmarshal(b, &f) == nil {
+					first := r.stderr
+					if i := strings.Index(first, "panic:"); i >= 0 {
+						first = first[i:]
+					} else if i := strings.Index(first, "fatal error:"); i >= 0 {
+						first = first[i:]
+					}
+					if len(first) > 600 {
+						first = first[:600]
+					}
+					f["violation"] = map[string]any{"class": prop + "/crash", "detail": "the process crashed while handling the run: " + first, "step": 0}
+					nb, _ := json.Marshal(f)
+					crashes = append(crashes, nb)
+					continue
+				}
+			}
+		}
 		if r.exit == 3 && hangIsViolation[prop] {
 			// the watchdog fired: a call of the system under test never returned
 			if b, err := os.ReadFile(filepath.Join(td, fmt.Sprintf("w%d.current", w))); err == nil {
@@ -486,10 +516,6 @@ func explore(prop, tier string) int {
 		}
 		if r.exit != 0 || !gotSummary {
 			msg := fmt.Sprintf("worker %d exited with status %d without a summary", w, r.exit)
-			if p, ok := crashJudge[prop]; ok && r.exit != 3 && r.exit != 4 {
-				// a crashed worker process is a finding for properties about crashes; handled below
-				_ = p
-			}
 			st := r.stderr
 			if len(st) > 6000 {
 				st = st[:3000] + "\n...\n" + st[len(st)-3000:]
@@ -592,6 +618,26 @@ func explore(prop, tier string) int {
 		violations++
 		exit = 1
 	}
+	for ci, cb := range crashes {
+		if ci > 0 {
+			break
+		}
+		var f struct {
+			RunIndex  uint64    `json:"run_index"`
+			Violation violation `json:"violation"`
+		}
+		json.Unmarshal(cb, &f)
+		outFile := filepath.Join(replayDir, fmt.Sprintf("%s-%d-%d-crash.json", prop, seed, f.RunIndex))
+		os.WriteFile(outFile, cb, 0o644)
+		if rc := doReplay(prop, outFile, false); rc != 1 {
+			infra = append(infra, fmt.Sprintf("crash replay %s did not crash again (rc=%d)", outFile, rc))
+			continue
+		}
+		fmt.Printf("violation %s: %s\n", f.Violation.Class, f.Violation.Detail)
+		fmt.Printf("VIOLATION property=%s replay=%s\n", prop, outFile)
+		violations++
+		exit = 1
+	}
 	for hi, hb := range hangs {
 		if hi > 0 {
 			break // one hang replay is enough
@@ -631,8 +677,8 @@ func explore(prop, tier string) int {
 // hangIsViolation: properties with a liveness clause (a stop / request must return).
 var hangIsViolation = map[string]bool{"C10": true, "C14": true, "C17": true}
 
-// crashJudge: placeholder for properties where a crashed worker is itself a violation (C16).
-var crashJudge = map[string]bool{}
+// crashIsViolation: properties for which a crashed worker process is itself a violation.
+var crashIsViolation = map[string]bool{"C16": true}
 
 func writeEvidence(prop, tier string, seed uint64, meta propMeta, agg summary, distinct int, wall float64, violations int,
 	known map[string]int, budget float64, workers int) {
